@@ -37,7 +37,8 @@ pub fn main(run_once: RunOnce) -> i32 {
     let args: Vec<String> = std::env::args().collect();
     exec::global_init(run_once);
     match args.get(1).map(|s| s.as_str()) {
-        Some("check") => {
+        Some(cmd @ ("check" | "shard")) => {
+            let is_shard = cmd == "shard";
             let Some(property) = args.get(2).cloned() else {
                 println!("usage: simcli check <C06|C07|C08|C17> [--tier quick|thorough] [--seed N] [--threads N] [--runs N]");
                 return 2;
@@ -51,7 +52,9 @@ pub fn main(run_once: RunOnce) -> i32 {
                 _ => oracle::Tier::Quick,
             };
             let seed: u64 = arg_val(&args, "--seed").and_then(|s| s.parse().ok()).unwrap_or(1);
-            let threads: usize = arg_val(&args, "--threads").and_then(|s| s.parse().ok()).unwrap_or(16);
+            // 8 worker processes x 2 threads by default; `--threads N --procs 1` is the single-process form
+            let threads: usize = arg_val(&args, "--threads").and_then(|s| s.parse().ok()).unwrap_or(2);
+            let procs: usize = arg_val(&args, "--procs").and_then(|s| s.parse().ok()).unwrap_or(8);
             let default_runs = default_runs(&property, tier);
             let runs: u64 = arg_val(&args, "--runs").and_then(|s| s.parse().ok()).unwrap_or(default_runs);
             let max_wall = Duration::from_secs(arg_val(&args, "--max-wall-s").and_then(|s| s.parse().ok()).unwrap_or(match tier {
@@ -64,6 +67,16 @@ pub fn main(run_once: RunOnce) -> i32 {
                 tier,
                 seed,
                 threads,
+                procs,
+                shard: if is_shard {
+                    Some((
+                        arg_val(&args, "--offset").and_then(|s| s.parse().ok()).unwrap_or(0),
+                        arg_val(&args, "--stride").and_then(|s| s.parse().ok()).unwrap_or(1),
+                        PathBuf::from(arg_val(&args, "--out").unwrap_or_default()),
+                    ))
+                } else {
+                    None
+                },
                 runs,
                 max_wall,
                 evidence: std::env::var_os("VERIF_EVIDENCE_DIR").map(PathBuf::from).unwrap_or_else(|| verif.join("evidence")).join(format!("{property}.json")),
@@ -82,6 +95,9 @@ pub fn main(run_once: RunOnce) -> i32 {
                 }),
             };
             quiet_stderr();
+            if is_shard {
+                return campaign::shard(&a);
+            }
             campaign::check(&a)
         }
         Some("probe") => {
@@ -206,14 +222,14 @@ pub fn main(run_once: RunOnce) -> i32 {
 
 fn default_runs(property: &str, tier: oracle::Tier) -> u64 {
     match (property, tier) {
-        ("C06", oracle::Tier::Quick) => 9_000,
-        ("C06", oracle::Tier::Thorough) => 60_000,
-        ("C07", oracle::Tier::Quick) => 30_000,
-        ("C07", oracle::Tier::Thorough) => 1_000_000,
-        ("C08", oracle::Tier::Quick) => 16_000,
-        ("C08", oracle::Tier::Thorough) => 400_000,
-        ("C17", oracle::Tier::Quick) => 8_000,
-        ("C17", oracle::Tier::Thorough) => 150_000,
+        ("C06", oracle::Tier::Quick) => 20_000,
+        ("C06", oracle::Tier::Thorough) => 500_000,
+        ("C07", oracle::Tier::Quick) => 100_000,
+        ("C07", oracle::Tier::Thorough) => 3_000_000,
+        ("C08", oracle::Tier::Quick) => 50_000,
+        ("C08", oracle::Tier::Thorough) => 1_500_000,
+        ("C17", oracle::Tier::Quick) => 30_000,
+        ("C17", oracle::Tier::Thorough) => 700_000,
         _ => 1000,
     }
 }
